@@ -278,6 +278,11 @@ func (c *Ctx) DeclareUF(name string, args []Sort, res Sort) string {
 	return name
 }
 
+// BornApp: application of a havoc-memory function of address sort: its value existed when born objects had been allocated.
+func (c *Ctx) BornApp(name string, res Sort, born int, args ...*Term) *Term {
+	return c.mk(&Term{Op: OpApp, S: res, Name: smtName(name), Args: args, K: born, K2: 8})
+}
+
 func (c *Ctx) App(name string, res Sort, args ...*Term) *Term {
 	return c.mk(&Term{Op: OpApp, S: res, Name: smtName(name), Args: args})
 }
@@ -494,7 +499,8 @@ func (c *Ctx) Ite(cond, a, b *Term) *Term {
 }
 
 // addrRoot returns the root of an address term and whether it is syntactically known.
-// kind: 0 unknown, 1 fresh/global object with concrete id (K), 2 nil, 3 entry-state symbol
+// kind: 0 unknown, 1 fresh/global object with concrete id (K), 2 nil, 3 entry-state symbol,
+// 4 value that existed when K objects had been allocated (read from a havoc memory)
 func addrRoot(a *Term) (*Term, int) {
 	for {
 		switch a.Op {
@@ -512,6 +518,9 @@ func addrRoot(a *Term) (*Term, int) {
 		case OpApp:
 			if a.K2 == 7 {
 				return a, 3
+			}
+			if a.K2 == 8 { // read from a havoc memory created when a.K objects had been allocated
+				return a, 4
 			}
 			return a, 0
 		default:
@@ -627,6 +636,9 @@ func (c *Ctx) addrEq(a, b *Term) (*Term, bool) {
 	}
 	if (ka == 1 && ra.K > 0 && kb == 3) || (kb == 1 && rb.K > 0 && ka == 3) {
 		return c.False, true // object allocated during the call vs something that existed at entry
+	}
+	if (ka == 1 && kb == 4 && ra.K > rb.K) || (kb == 1 && ka == 4 && rb.K > ra.K) {
+		return c.False, true // object allocated after the unknown value came into existence
 	}
 	if (ka == 1 && kb == 2) || (ka == 2 && kb == 1) {
 		return c.False, true
